@@ -22,6 +22,26 @@ func init() {
 		},
 	})
 	regProp(&propDef{
+		id:   "C13",
+		gen:  func(seed uint64, th bool) *Plan { return genHostilePlan(seed, th) },
+		chk:  newHostileChecker,
+		rule: "1-2 attacker connections and 1-2 well-behaved victim connections (own key prefix, refined against the model) run concurrently; attackers send either raw hostile bytes (blank lines, bare CR/LF, every RESP3 type as top-level value or argument, aggregates as map keys/set members, declared lengths -2^63, -5, 2^48, 2^63-1 for every length-carrying type, streamed aggregates, truncated frames followed by close, byte-level mutations of valid frames) or well-formed commands (every command name x 0-6 arguments from pools of extreme integers/floats, keywords and keys of every type, plus targeted shapes: offsets/counts/ranges at +-2^63 and 2^62, BITFIELD types, RESTORE payloads, COMMAND GETKEYS with disagreeing numkeys, SCAN cursors/counts); oracles: no emulator goroutine panics and the worker process survives, every well-formed non-blocking command is answered exactly once, the victims' replies equal the model and arrive; non-trivial = hostile well-formed commands were answered or garbage reached the parser while a victim was being served; distinct = distinct scheduler event sequence",
+		nontrivial: func(res *RunResult) bool {
+			return res.Extra["hostile-answered"]+res.Extra["garbage-sent"] >= 1
+		},
+		quickRuns:       3000,
+		thoroughRuns:    200000,
+		quickSeconds:    60,
+		thoroughSeconds: 900,
+		level:           "exploration",
+		crashy:          true,
+		explanation:     "Panics in emulator goroutines are recovered by the verif-only simRecover hook and reported as violations with the panicking frame as fingerprint; what cannot be recovered (fatal runtime errors, os.Exit) kills the worker, which the driver attributes to the run in flight (its plan is written to disk before the run starts) and confirms by replaying it in a fresh process.",
+		assumptions: []string{
+			"declared lengths between 2^20 and 2^48 are not generated: whether a 16 GiB allocation succeeds depends on the host, which the property does not fix",
+			"attackers do not touch the victims' keys and do not issue commands that legitimately change what victims see (FLUSH*, CLIENT KILL of other ids)",
+		},
+	})
+	regProp(&propDef{
 		id:   "C15",
 		gen:  func(seed uint64, th bool) *Plan { return genProtoPlan(seed, th) },
 		chk:  newProtoChecker,
